@@ -299,6 +299,32 @@ def oracle_obs_member(ob, shape, types, colors):
     return (type(g) in types or isinstance(g, NoneGridObject)) and g.color in colors
 
 
+def h_contains_after_change(sx):
+    """StateSpace.contains is asked, the state is changed in place the way the dynamics do (a box opened: its content, of an
+    undeclared type, appears; a door opened; the agent moved out), and it is asked again: the second answer is the oracle's"""
+    from gym_gridverse.envs.transition_functions import actuate_box, actuate_door
+    types = [Floor, Wall, Box, Door]
+    colors = [Color.NONE, Color.YELLOW]
+    space = StateSpace(Shape(1, 2), types, colors)
+    front = sx.choice('front', [('Box(Key)', lambda: Box(Key(Color.YELLOW))), ('Box(Floor)', lambda: Box(Floor())), ('Box(Box(Wall))', lambda: Box(Box(Wall()))),
+                                ('Door(CLOSED,YELLOW)', lambda: Door(Door.Status.CLOSED, Color.YELLOW)), ('Door(CLOSED,RED)', lambda: Door(Door.Status.CLOSED, Color.RED))])
+    st = State(Grid([[Floor(), front[1]()]]), Agent(Position(0, 0), Orientation.R))
+    first = bool(space.contains(st))
+    sx.check(first == oracle_state_member(st, 1, 2, types, set(colors)), 'contains-before')
+    change = sx.choice('change', ['actuate', 'move-out', 'hold-undeclared'])
+    if change == 'actuate':
+        actuate_box(st, Action.ACTUATE)
+        actuate_door(st, Action.ACTUATE)
+    elif change == 'move-out':
+        st.agent.position = Position(0, 2)
+    else:
+        st.agent.grid_object = Key(Color.YELLOW)
+    second = bool(space.contains(st))
+    exp = oracle_state_member(st, 1, 2, types, set(colors))
+    sx.cover('contains-after-' + change, nontrivial=first != exp)
+    sx.check(second == exp, 'contains-after-an-in-place-change', f'{front[0]} {change}: contains={second} oracle={exp}')
+
+
 OCAND = CAND + [('Hidden', Hidden)]
 
 
@@ -379,6 +405,7 @@ def obligations(tier):
             obs.append(Obligation(f'debug-step-{obsname}-{H}x{W}', mk_debug_step(full, H, W, sg, obsname),
                                   dict(H=H, W=W, alphabet=[e[0] for e in sg], held=['none', 'Key(YELLOW)'], debug=True)))
     obs.append(Obligation('action-space-1x1', mk_action_space(1, 1), dict(subsets=256, world='1x1 over {Floor, Exit}, turn_agent dynamics')))
+    obs.append(Obligation('state-contains-after-in-place-change', h_contains_after_change))
     obs.append(Obligation('rejected-action-stateful-1x2', mk_rejected_stateful(1, 2), dict(subsets=6, interface='InnerEnv.step on a live environment')))
     for (H, W) in ([(1, 2), (2, 2), (2, 3)] if q else [(1, 2), (2, 2), (2, 3), (3, 2)]):
         obs.append(Obligation(f'state-contains-space2x2-cand{H}x{W}', mk_state_contains(2, 2, H, W), dict(space='2x2', candidate=f'{H}x{W}')))
